@@ -32,6 +32,7 @@ type Violation struct {
 
 // Run is the state of one check run (parent or worker).
 type Run struct {
+	knownCache map[string]finding
 	replaySig, replayFile string
 	ID     string
 	Tier   string
@@ -366,6 +367,23 @@ func (r *Run) loadFindings() map[string]finding {
 		}
 	}
 	return m
+}
+
+// IsKnown reports whether a violation signature is covered by an entry of known_findings.json
+// (exactly, or through a "prefix*" entry).
+func (r *Run) IsKnown(sig string) bool {
+	if r.knownCache == nil {
+		r.knownCache = r.loadFindings()
+	}
+	if _, ok := r.knownCache[sig]; ok {
+		return true
+	}
+	for k := range r.knownCache {
+		if strings.HasSuffix(k, "*") && strings.HasPrefix(sig, strings.TrimSuffix(k, "*")) {
+			return true
+		}
+	}
+	return false
 }
 
 // Coverage is what Finish needs beyond the counters.
